@@ -8,6 +8,7 @@ profiles; nothing is bounded.
 import CamVerif.Model.Cmd
 import CamVerif.Gen.CmdConsts
 import CamVerif.Proofs.C10GenTie
+import CamVerif.Proofs.C10GenTie2
 import CamVerif.Proofs.C10Wrap
 namespace CamVerif.C10
 open CamVerif CamVerif.Cmd
@@ -486,5 +487,23 @@ example : ¬ ReadAddrOverflows 4 (2 ^ 64 - 6) 8 ∧
 re-translates from the CURRENT Rust source on every run (FnCmd) are equal, for every input and both
 build profiles, to the hand-written model functions the theorems above are about. -/
 theorem gen_fn_tie : CamVerif.Proofs.C10GenTie.GenTie := CamVerif.Proofs.C10GenTie.gen_tie
+
+/-- **gen_fn_tie_chunks** (tie by regeneration): `ReadMem::chunks` as re-translated from the
+CURRENT Rust source (budget check, construction of the iterator state) equals the model's
+`ReadMem.chunks`, for every command, every budget and both build profiles. -/
+theorem gen_fn_tie_chunks : CamVerif.Proofs.C10GenTie2.GenTieChunks :=
+  CamVerif.Proofs.C10GenTie2.gen_tie_chunks
+
+/-- **gen_fn_tie_next** (tie by regeneration): `<ReadMemChunks as Iterator>::next` as re-translated
+from the CURRENT Rust source — a state-passing step function `state ↦ (item, state')`, the
+`&mut self` assignments turned into functional updates — equals the model's `ReadMemChunks.next`
+(the step function every chunking theorem above is proved about), for every iterator state and
+both build profiles, including the address-overflow panic / wrap. -/
+theorem gen_fn_tie_next : CamVerif.Proofs.C10GenTie2.GenTieNext :=
+  CamVerif.Proofs.C10GenTie2.gen_tie_next
+
+/-- non-vacuity: one real step, through the tie -/
+example : ReadMemChunks.next .dev ⟨0x1000, 128, 12⟩ = .ok (some ⟨0x1000, 12⟩, ⟨0x100c, 116, 12⟩) := by
+  rw [gen_fn_tie_next.2 .dev ⟨0x1000, 128, 12⟩ (by unfold CamVerif.Proofs.C10GenTie2.ChInRange; decide)]; decide
 
 end CamVerif.C10
